@@ -200,6 +200,7 @@ type recorder struct {
 	evs     []fsEvent
 	unit    time.Duration
 	variant int // which listeners are registered (see registered)
+	alt     int // 1: build the policies through the alternative, equivalent builder spellings (WithMaxAttempts, WithFailureThreshold, ...)
 	limit   int
 	cancel  context.CancelFunc
 	runaway atomic.Bool
@@ -270,6 +271,8 @@ func (r *recorder) registered(name string) bool {
 		return name != "ExecOnFailure"
 	case 3: // policies: no OnSuccess/OnFailure listeners
 		return name != "OnSuccess" && name != "OnFailure"
+	case 5: // fallbacks are built with BuilderWithResult / BuilderWithError: there is no fallback function to observe
+		return name != "FallbackFn"
 	case 4: // policies: only OnSuccess/OnFailure listeners plus the executor's
 		switch name {
 		case "OnRetryScheduled", "OnRetry", "OnAbort", "OnRetriesExceeded", "OnFull", "OnRateLimitExceeded", "OnHedge",
@@ -295,9 +298,22 @@ func (r *recorder) add(e fsEvent) {
 func (r *recorder) attempt(name string, layer int, a failsafe.ExecutionAttempt[string], x any) {
 	if r.tmode {
 		r.tlineF(func() M {
+			// double collect: the counters are shared atomics and LastError() depends on the copy's context, all of which
+			// the library may change between two reads without logging anything; all of them only ever move one way, so
+			// two identical consecutive collects are a snapshot of one instant
 			att, exe, ret, hdg := stableCounters(a)
+			le := a.LastError()
+			for i := 0; i < 100; i++ {
+				att2, exe2, ret2, hdg2 := stableCounters(a)
+				le2 := a.LastError()
+				same := att2 == att && exe2 == exe && ret2 == ret && hdg2 == hdg && le2 == le
+				att, exe, ret, hdg, le = att2, exe2, ret2, hdg2, le2
+				if same {
+					break
+				}
+			}
 			return M{"ev": name, "x": xOf(a.Context()), "L": layer, "att": att, "exe": exe, "ret": ret, "hdg": hdg,
-				"lr": resName(a.LastResult()), "le": projectErr(a.LastError())}
+				"lr": resName(a.LastResult()), "le": projectErr(le)}
 		}, x)
 		return
 	}
@@ -476,14 +492,27 @@ func buildStack(stack []desc, unit time.Duration, rec *recorder) *builtStack {
 		var p failsafe.Policy[string]
 		switch d.K {
 		case "retry":
-			b := retrypolicy.Builder[string]().WithMaxRetries(d.Max)
+			b := retrypolicy.Builder[string]()
+			if rec.alt == 1 {
+				if d.Max == -1 {
+					b.WithMaxAttempts(-1)
+				} else {
+					b.WithMaxAttempts(d.Max + 1)
+				}
+			} else {
+				b.WithMaxRetries(d.Max)
+			}
 			applyStrConds(d.H, func(e ...error) { b.HandleErrors(e...) }, func(r string) { b.HandleResult(r) }, func(f func(string, error) bool) { b.HandleIf(f) })
 			applyStrConds(d.A, func(e ...error) { b.AbortOnErrors(e...) }, func(r string) { b.AbortOnResult(r) }, func(f func(string, error) bool) { b.AbortIf(f) })
 			if d.Rlf {
 				b.ReturnLastFailure()
 			}
 			if d.Dly != 0 {
-				b.WithDelay(time.Duration(d.Dly) * unit)
+				if rec.alt == 1 {
+					b.WithBackoff(time.Duration(d.Dly)*unit, time.Duration(d.Dly)*unit) // backoff capped at its first delay = that fixed delay
+				} else {
+					b.WithDelay(time.Duration(d.Dly) * unit)
+				}
 			}
 			if d.MaxD != 0 {
 				b.WithMaxDuration(time.Duration(d.MaxD) * unit)
@@ -522,11 +551,17 @@ func buildStack(stack []desc, unit time.Duration, rec *recorder) *builtStack {
 				b.WithFailureRateThreshold(c.Frate, c.Fexec, time.Duration(c.Period)*unit)
 			case c.Period != 0:
 				b.WithFailureThresholdPeriod(c.Fthr, time.Duration(c.Period)*unit)
+			case rec.alt == 1 && c.Fthr == c.Fcap:
+				b.WithFailureThreshold(c.Fthr)
 			default:
 				b.WithFailureThresholdRatio(c.Fthr, c.Fcap)
 			}
 			if c.Sthr != 0 {
-				b.WithSuccessThresholdRatio(c.Sthr, c.Scap)
+				if rec.alt == 1 && c.Sthr == c.Scap {
+					b.WithSuccessThreshold(c.Sthr)
+				} else {
+					b.WithSuccessThresholdRatio(c.Sthr, c.Scap)
+				}
 			}
 			b.WithDelay(time.Duration(c.Delay) * unit)
 			applyStrConds(d.H, func(e ...error) { b.HandleErrors(e...) }, func(r string) { b.HandleResult(r) }, func(f func(string, error) bool) { b.HandleIf(f) })
@@ -588,6 +623,13 @@ func buildStack(stack []desc, unit time.Duration, rec *recorder) *builtStack {
 				rec.attempt("FallbackFn", evLayer, exec, nil)
 				return fr, fe
 			})
+			if !rec.registered("FallbackFn") {
+				if fe == nil {
+					b = fallback.BuilderWithResult(fr)
+				} else if fr == "" {
+					b = fallback.BuilderWithError[string](fe)
+				}
+			}
 			applyStrConds(d.H, func(e ...error) { b.HandleErrors(e...) }, func(r string) { b.HandleResult(r) }, func(f func(string, error) bool) { b.HandleIf(f) })
 			if rec.registered("OnSuccess") {
 				b.OnSuccess(func(e failsafe.ExecutionEvent[string]) { rec.attempt("OnSuccess", evLayer, e, nil) })
@@ -636,6 +678,10 @@ func buildStack(stack []desc, unit time.Duration, rec *recorder) *builtStack {
 			p = b.Build()
 		case "hg":
 			b := hedgepolicy.BuilderWithDelay[string](time.Duration(d.Delay) * unit)
+			if rec.alt == 1 && len(d.Delays) == 0 {
+				dl := time.Duration(d.Delay) * unit
+				b = hedgepolicy.BuilderWithDelayFunc[string](func(failsafe.ExecutionAttempt[string]) time.Duration { return dl })
+			}
 			if len(d.Delays) > 0 {
 				delays := d.Delays
 				b = hedgepolicy.BuilderWithDelayFunc[string](func(exec failsafe.ExecutionAttempt[string]) time.Duration {
@@ -687,7 +733,7 @@ func kindOfLayer(stack []desc, l int) string {
 }
 
 func replaySeq(b fsBehaviour, unit time.Duration, entry int, variant int) (mis []fsMismatch, nontrivial bool) {
-	rec := &recorder{unit: unit, variant: variant}
+	rec := &recorder{unit: unit, variant: variant % 6, alt: (variant / 6) % 2}
 	bs := buildStack(b.Stack, unit, rec)
 	n := len(b.Stack)
 	add := func(x int, tag, kind, f string, a ...any) {
@@ -750,7 +796,30 @@ func replaySeq(b fsBehaviour, unit time.Duration, entry int, variant int) (mis [
 		}
 		var r string
 		var err error
+		// entries 4..7 are the Run* family: the function has no result, so they apply when the script never returns one
+		if entry >= 4 {
+			for _, s := range want.Script {
+				if s.R != "R0" {
+					entry -= 4
+					break
+				}
+			}
+		}
+		runFn := func(exec failsafe.Execution[string]) error { _, e := fn(exec); return e }
 		switch entry {
+		case 4: // Run / RunWithExecution have no result to compare
+			err = ex.RunWithExecution(runFn)
+			r = mkString(want.R)
+		case 5:
+			err = ex.Run(func() error { return runFn(nil) })
+			r = mkString(want.R)
+		case 6:
+			er := ex.RunWithExecutionAsync(runFn)
+			r, err = er.Get()
+		case 7:
+			er := ex.RunAsync(func() error { return runFn(nil) })
+			<-er.Done()
+			r, err = er.Result(), er.Error()
 		case 0:
 			r, err = ex.GetWithExecution(fn)
 		case 1:
@@ -807,7 +876,7 @@ func replaySeq(b fsBehaviour, unit time.Duration, entry int, variant int) (mis [
 				if (g.Att != -1 || w.Ev == "CacheSet") && (g.Lr != w.Lr || !termEq(g.Le, w.Le)) {
 					add(xi, "evsnap", kind, "event %d %s@%d sees last (%s, %s), spec (%s, %s)", k, w.Ev, w.L, g.Lr, g.Le, w.Lr, w.Le)
 				}
-				if !(entry == 1 || entry == 3) || w.Ev != "FnStart" {
+				if !(entry == 1 || entry == 3 || entry == 5 || entry == 7) || w.Ev != "FnStart" {
 					if !jsonEq(g.X, w.X) {
 						add(xi, "evextra", kind, "event %d %s@%d carries %s, spec %s", k, w.Ev, w.L, string(g.X), string(w.X))
 					}
@@ -915,7 +984,7 @@ func isEmpty(x any) bool {
 func init() {
 	modes["seq_replay"] = func(t *testing.T) {
 		unit := time.Duration(envInt("VH_UNIT_NS", 1000000))
-		entries := envInt("VH_ENTRIES", 1) // how many entry points each behaviour is run through (1..4)
+		entries := envInt("VH_ENTRIES", 1) // how many entry points each behaviour is run through (1..8)
 		var n, bad, nontriv atomic.Int64
 		var sample atomic.Value
 		parallelLines(t, func(t *testing.T, line []byte) {
@@ -933,11 +1002,11 @@ func init() {
 				}
 				var mis []fsMismatch
 				synctest.Test(t, func(t *testing.T) {
-					mis, nt = replaySeq(b, unit, entry, int(k)%5)
+					mis, nt = replaySeq(b, unit, entry, int(k)%12)
 				})
 				if len(mis) > 0 {
 					if bad.Add(1) <= 40 {
-						emit(M{"k": "mismatch", "entry": entry, "variant": int(k) % 5, "mis": mis, "behaviour": json.RawMessage(mustJSON(b))})
+						emit(M{"k": "mismatch", "entry": entry, "variant": int(k) % 12, "mis": mis, "behaviour": json.RawMessage(mustJSON(b))})
 					} else {
 						tags := map[string]bool{}
 						for _, m := range mis {
